@@ -50,6 +50,9 @@ ASSUMPTIONS = [
     "termination is decided by a token-pull budget of 60*len(text)+2000 lexer "
     "pulls: sound for loops that touch the token stream (all parser loops do)",
     "RecursionError is ignored only for bracket/block nesting deeper than 50",
+    "a load of a text of <= 2000 characters that has used 20 s of CPU time (ITIMER_VIRTUAL) "
+    "is taken not to terminate: such loads take milliseconds, so this is no timing oracle "
+    "in the usual sense, but it is the one place where time decides a verdict",
 ]
 
 
@@ -77,12 +80,45 @@ def nesting_depth(text):
     return max(best, low.count("group") + low.count("object"))
 
 
+class CpuTimeExceeded(BaseException):
+    pass
+
+
+CPU_LIMIT_S = 20.0
+_HANDLER = []
+
+
+def _cpu_guard(on):
+    """ITIMER_VIRTUAL (CPU time of this process, so a busy machine does not matter):
+    a load of a text of at most 2000 characters takes milliseconds; one that is still
+    computing after 20 s of CPU time - in a regular expression, say, where the
+    token-pull budget cannot see it - is reported as not terminating."""
+    import signal
+    if not _HANDLER:
+        def handler(signum, frame):
+            raise CpuTimeExceeded()
+        signal.signal(signal.SIGVTALRM, handler)
+        _HANDLER.append(handler)
+    signal.setitimer(signal.ITIMER_VIRTUAL, CPU_LIMIT_S if on else 0)
+
+
 def load(d, text):
     """Returns (outcome, ntokens, signature|None, detail)."""
     p = budget_parser(d)
+    guard = len(text) <= 2000
     try:
-        p.parse(text)
+        if guard:
+            _cpu_guard(True)
+        try:
+            p.parse(text)
+        finally:
+            if guard:
+                _cpu_guard(False)
         return ("module", p.lexer.stats["tokens"], None, "")
+    except CpuTimeExceeded:
+        return ("cpu", p.lexer.stats["tokens"], f"C06/{d}/cpu-time",
+                f"still computing after {CPU_LIMIT_S:.0f} s of CPU time on a text of "
+                f"{len(text)} characters: text={text!r}")
     except BudgetExceeded:
         return ("spins", p.lexer.stats["tokens"], f"C06/{d}/non-termination",
                 f"token-pull budget exceeded: text={text!r}")
